@@ -1,4 +1,6 @@
 import EpgVerif.Props.C18
+import EpgVerif.Tie.PhysSites
+import EpgVerif.Tie.RFPulse
 open EpgVerif.Props.C18
 #print axioms pulse_is_ordered_product
 #print axioms pulse_with_relaxation_step
@@ -16,3 +18,7 @@ open EpgVerif.Props.C18
 #print axioms EpgVerif.T_offset
 #print axioms EpgVerif.T_phase_180
 #print axioms EpgVerif.T_equilibrium_z
+#print axioms EpgVerif.Tie.PhysSites.sites_as_modelled
+#print axioms EpgVerif.Tie.RFPulse.pulse_tie
+#print axioms EpgVerif.Tie.RFPulse.phis_are_sample_phases
+#print axioms EpgVerif.Tie.RFPulse.frame_ops_are_Phi
